@@ -82,6 +82,10 @@ pub enum Op {
     SeekBack(u32),   // Start(pos - d): may be refused; if accepted bytes must be right
     SeekOutside(u32),
     SeekEnd,
+    /// Start(target within what is buffered right now) without filling first
+    SeekNoFill(u16),
+    /// Current(-d): may be refused; if accepted the bytes must be right
+    SeekCurBack(u32),
 }
 fn op() -> impl Strategy<Value = Op> {
     prop_oneof![
@@ -93,6 +97,8 @@ fn op() -> impl Strategy<Value = Op> {
         2 => prop_oneof![0u32..10, 0u32..5000, 0u32..100_000].prop_map(Op::SeekBack),
         1 => (1u32..100_000).prop_map(Op::SeekOutside),
         1 => Just(Op::SeekEnd),
+        2 => any::<u16>().prop_map(Op::SeekNoFill),
+        1 => prop_oneof![0u32..10, 0u32..5000].prop_map(Op::SeekCurBack),
     ]
 }
 type ReaderCase = (u32, u32, u32, u32, Sched, Vec<Op>);
@@ -107,6 +113,7 @@ fn reader_model(v: &ReaderCase, rep: &mut Rep) -> Result<(), String> {
     let mut r = LowMarkBufReader::new(src, cap, low_mark);
     let mut pos = 0usize; // model position
     let mut backward_ok = 0;
+    let mut no_fill_seeks = 0;
     let mut handed = 0usize;
     let check_slice = |s: &[u8], pos: usize, what: &str| -> Result<(), String> {
         ensure!(pos + s.len() <= data.len(), "{}: {} bytes at {} exceed the source ({} bytes)", what, s.len(), pos, data.len());
@@ -114,6 +121,12 @@ fn reader_model(v: &ReaderCase, rep: &mut Rep) -> Result<(), String> {
             let bad = s.iter().zip(&data[pos..]).position(|(a, b)| a != b).unwrap();
             return Err(format!("{}: byte at offset {} differs from the source (pos {}, len {})", what, pos + bad, pos, s.len()));
         }
+        Ok(())
+    };
+    // whenever the reader was asked to fill: at least the low-water mark of look-ahead (or all that is left)
+    let check_low_mark = |got: usize, pos: usize, what: &str| -> Result<(), String> {
+        let need = std::cmp::min(low_mark, data.len() - pos);
+        ensure!(got >= need, "{}: fill_buf returned {} bytes < min(low_mark {}, remaining {}) at pos {}", what, got, low_mark, data.len() - pos, pos);
         Ok(())
     };
     for (oi, op) in ops.iter().enumerate() {
@@ -132,6 +145,7 @@ fn reader_model(v: &ReaderCase, rep: &mut Rep) -> Result<(), String> {
             }
             Op::Consume(f) => {
                 let avail = r.fill_buf().map_err(|e| e.to_string())?.len();
+                check_low_mark(avail, pos, "consume")?;
                 let n = (*f as usize * (avail + 1)) >> 16;
                 r.consume(n);
                 pos += n;
@@ -150,6 +164,7 @@ fn reader_model(v: &ReaderCase, rep: &mut Rep) -> Result<(), String> {
             }
             Op::SeekFwd(f) => {
                 let avail = r.fill_buf().map_err(|e| e.to_string())?.len();
+                check_low_mark(avail, pos, "seek fwd")?;
                 let d = (*f as usize * (avail + 1)) >> 16;
                 let t = pos + d;
                 match r.seek(SeekFrom::Start(t as u64)) {
@@ -162,6 +177,7 @@ fn reader_model(v: &ReaderCase, rep: &mut Rep) -> Result<(), String> {
             }
             Op::SeekCurFwd(f) => {
                 let avail = r.fill_buf().map_err(|e| e.to_string())?.len();
+                check_low_mark(avail, pos, "seek cur")?;
                 let d = (*f as usize * (avail + 1)) >> 16;
                 match r.seek(SeekFrom::Current(d as i64)) {
                     Ok(p) => {
@@ -182,12 +198,47 @@ fn reader_model(v: &ReaderCase, rep: &mut Rep) -> Result<(), String> {
                 } // refused: position unchanged
             }
             Op::SeekOutside(d) => {
+                // outside of the statement (only seeks within the buffer are promised): refused, or done correctly
                 let avail = r.fill_buf().map_err(|e| e.to_string())?.len();
+                check_low_mark(avail, pos, "seek outside")?;
                 let t = pos + avail + *d as usize;
-                ensure!(r.seek(SeekFrom::Start(t as u64)).is_err(), "op {}: seek beyond the buffered window accepted", oi);
+                if let Ok(p) = r.seek(SeekFrom::Start(t as u64)) {
+                    ensure_eq!(p, t as u64, "seek(Start) beyond the window: result");
+                    if t > data.len() {
+                        rep.label("seek_beyond_source_accepted");
+                        return Ok(());
+                    }
+                    pos = t;
+                }
             }
             Op::SeekEnd => {
-                ensure!(r.seek(SeekFrom::End(0)).is_err(), "seek(End) accepted");
+                if let Ok(p) = r.seek(SeekFrom::End(0)) {
+                    ensure_eq!(p, data.len() as u64, "seek(End(0)) result");
+                    pos = data.len();
+                }
+            }
+            Op::SeekNoFill(f) => {
+                let avail = r.buffer().len();
+                let d = (*f as usize * (avail + 1)) >> 16;
+                let t = pos + d;
+                match r.seek(SeekFrom::Start(t as u64)) {
+                    Ok(p) => {
+                        ensure_eq!(p, t as u64, "seek(Start) result");
+                        pos = t;
+                    }
+                    Err(e) => return Err(format!("op {}: seek to +{} within the {} buffered bytes (no fill before) refused: {}", oi, d, avail, e)),
+                }
+                no_fill_seeks += 1;
+            }
+            Op::SeekCurBack(d) => {
+                let t = pos.saturating_sub(*d as usize);
+                if let Ok(p) = r.seek(SeekFrom::Current(-((pos - t) as i64))) {
+                    ensure_eq!(p, t as u64, "seek(Current(-d)) result");
+                    if t < pos {
+                        backward_ok += 1;
+                    }
+                    pos = t;
+                }
             }
         }
     }
@@ -199,6 +250,7 @@ fn reader_model(v: &ReaderCase, rep: &mut Rep) -> Result<(), String> {
         }
         check_slice(s, pos, "drain")?;
         let n = s.len();
+        check_low_mark(n, pos, "drain")?;
         r.consume(n);
         pos += n;
         handed += n;
@@ -206,6 +258,7 @@ fn reader_model(v: &ReaderCase, rep: &mut Rep) -> Result<(), String> {
     ensure_eq!(pos, data.len(), "end-of-data signalled at {} of {} bytes", pos, data.len());
     let _ = handed;
     rep.label_if(backward_ok > 0, "backward_seek_accepted");
+    rep.label_if(no_fill_seeks > 0, "seek_without_fill");
     rep.label_if(data.len() > cap, "source_larger_than_buffer");
     rep.label_if(cap < 2 * low_mark && low_mark > 4096, "tight_capacity_big_low_mark");
     rep.nontrivial = data.len() > cap && ops.len() >= 3;
@@ -216,7 +269,14 @@ fn reader_model(v: &ReaderCase, rep: &mut Rep) -> Result<(), String> {
 type IterCase = (Stream, Vec<u16>, u32, Sched, u32);
 
 fn parse_all<R: BufRead>(start: u32, r: R) -> (Vec<DltMessage>, usize, usize, bool, bool) {
+    parse_all_log(start, r, false)
+}
+fn parse_all_log<R: BufRead>(start: u32, r: R, with_logger: bool) -> (Vec<DltMessage>, usize, usize, bool, bool) {
+    let logger = slog::Logger::root(slog::Discard, slog::o!());
     let mut it = DltMessageIterator::new(start, r);
+    if with_logger {
+        it.log = Some(&logger); // as the production callers do (extra bookkeeping of skipped bytes)
+    }
     let msgs: Vec<DltMessage> = it.by_ref().collect();
     (msgs, it.bytes_processed, it.bytes_skipped, it.detected_storage_header, it.detected_serial_header)
 }
@@ -244,28 +304,39 @@ pub fn iter_diff(v: &IterCase, rep: &mut Rep, strict: bool) -> Result<(), String
     let (stream, inject, extra_cap, sched, start) = v;
     let enc = stream.encode_raw();
     let mut bytes = enc.bytes;
+    let mut foreign_marker = false;
     for sel in inject {
         if bytes.len() >= 4 {
             let p = (*sel as usize * (bytes.len() - 3)) >> 16;
-            let m = if stream.serial { SERIAL_MARKER } else { STORAGE_MARKER };
+            // mostly the stream's own marker, sometimes the one of the other framing
+            let m = if stream.serial != (*sel % 4 == 3) { SERIAL_MARKER } else { STORAGE_MARKER };
+            foreign_marker |= *sel % 4 == 3;
             bytes[p..p + 4].copy_from_slice(&m);
         }
     }
+    // a stream that ends in the middle of a message (not enough data at the end vs in the middle of the buffer)
+    let truncated = *start % 3 == 2 && !bytes.is_empty();
+    if truncated {
+        let cut = (*start as usize / 3) % (std::cmp::min(bytes.len(), 70_000) + 1);
+        bytes.truncate(bytes.len() - cut);
+    }
+    let with_logger = *start % 2 == 1;
     if !strict && !stream.serial && f04_class(&bytes) {
         rep.known = Some("F04");
         return Ok(());
     }
     let low_mark = DLT_MAX_STORAGE_MSG_SIZE;
     let cap = low_mark + 4096 + *extra_cap as usize;
-    let reference = parse_all(*start, std::io::Cursor::new(&bytes[..]));
+    let reference = parse_all_log(*start, std::io::Cursor::new(&bytes[..]), with_logger);
     let first = sched.first_over_low_mark.map(|d| (low_mark as i64 + d as i64) as usize);
     let src = SchedSource::new(&bytes, first, &sched.sizes);
     let mut rd = LowMarkBufReader::new(src, cap, low_mark);
     let got = {
-        let mut it = DltMessageIterator::new(*start, &mut rd);
-        let msgs: Vec<DltMessage> = it.by_ref().collect();
-        (msgs, it.bytes_processed, it.bytes_skipped, it.detected_storage_header, it.detected_serial_header)
+        parse_all_log(*start, &mut rd, with_logger)
     };
+    rep.label_if(foreign_marker, "foreign_framing_marker");
+    rep.label_if(truncated, "truncated_stream");
+    rep.label_if(with_logger, "with_logger");
     rep.label_if(!inject.is_empty(), "embedded_markers");
     rep.label_if(bytes.len() > cap, "stream_larger_than_buffer");
     rep.label_if(enc.msgs.iter().any(|m| m.1.payload.len >= 60000), "msg_ge_60000");
@@ -290,7 +361,11 @@ fn suffix_check(v: &(Stream, u16, u32), rep: &mut Rep) -> Result<(), String> {
         return Ok(());
     }
     let k = (*ksel as usize * enc.msgs.len()) >> 16;
-    let off = enc.msgs[k].0;
+    // the suffix starts at message k or (odd selector) right behind message k-1, i.e. with the garbage before message k:
+    // the full parse meets that garbage with the framing already detected, the fresh parse without
+    let at_garbage = *ksel % 2 == 1 && k >= 1;
+    let off = if at_garbage { enc.msgs[k - 1].0 + enc.msgs[k - 1].1.encoded_len(stream.serial) } else { enc.msgs[k].0 };
+    rep.label_if(at_garbage && off < enc.msgs[k].0, "suffix_starts_with_garbage");
     if stream.serial && enc.bytes.len() - off < 20 && k > 0 {
         // a serial suffix shorter than 20 bytes is the (fixed) F01 situation; fine
     }
@@ -345,16 +420,16 @@ pub fn def(tier: Tier) -> PropertyDef {
         ],
         subs: vec![
             sub("reader_model", tier.pick(100_000, 2_000_000), reader, reader_model)
-                .rates(&[("source_larger_than_buffer", 0.2), ("tight_capacity_big_low_mark", 0.05), ("backward_seek_accepted", 0.1)])
+                .rates(&[("source_larger_than_buffer", 0.2), ("tight_capacity_big_low_mark", 0.05), ("seek_without_fill", 0.3)])
                 .boxed(),
             sub("iter_diff_huge", tier.pick(15_000, 300_000), (huge_stream(), inject.clone(), extra.clone(), sched(), start.clone()), |v, r| iter_diff(v, r, false))
-                .rates(&[("stream_larger_than_buffer", 0.2), ("embedded_markers", 0.2)])
+                .rates(&[("stream_larger_than_buffer", 0.2), ("embedded_markers", 0.2), ("foreign_framing_marker", 0.05), ("truncated_stream", 0.1), ("with_logger", 0.2)])
                 .boxed(),
             sub("iter_diff_many_small", tier.pick(4_000, 80_000), (many_small(), inject, extra, sched(), start.clone()), |v, r| iter_diff(v, r, false))
                 .rates(&[("stream_larger_than_buffer", 0.3)])
                 .shrink_iters(300)
                 .boxed(),
-            sub("suffix_position", tier.pick(60_000, 1_000_000), (stream(12, false, 300), any::<u16>(), start), suffix_check).rates(&[("proper_suffix", 0.3)]).boxed(),
+            sub("suffix_position", tier.pick(60_000, 1_000_000), (stream(12, false, 300), any::<u16>(), start), suffix_check).rates(&[("proper_suffix", 0.3), ("suffix_starts_with_garbage", 0.1)]).boxed(),
             crate::fuzzing::fuzz_sub("framing", "fuzz_framing", tier.pick(10_000, 100_000)),
             // only used to replay the pinned reproducer of the open finding F04 (no exclusion)
             sub("f04_strict", std::env::var("VERIF_DEV_F04").ok().and_then(|s| s.parse().ok()).unwrap_or(0), f04_strict, |v, r| iter_diff(v, r, true)).boxed(),
